@@ -42,7 +42,7 @@ def main(chk):
 
 MANIFEST = {
     'category': 'proof',
-    'technique': 'Coq: per format the recursion counter of the decode-into-interface{} model and of the skip/raw walker model is bounded by MaxDepth for every byte list, option vector and fuel (assembled by exact from the wire-layer lemmas), nesting to MaxDepth or beyond is an error; a model of the typed path (destination types as trees) with its own bound; vm_compute correspondence of the wire models on nested inputs around MaxDepth; API-level oracle on all five formats, thirteen paths, every nesting unit, with 10^6-level inputs, 6*10^6-unit runs of non-nesting tags, sentinel-length heads and 3*10^6-element inputs without nesting in 64 MB-stack subprocesses',
+    'technique': 'Coq: per format the recursion counter of the decode-into-interface{} model and of the skip/raw walker model is bounded by MaxDepth for every byte list, option vector and fuel (assembled by exact from the wire-layer lemmas), nesting to MaxDepth or beyond is an error; a model of the typed path (destination types as trees) with its own bound; vm_compute correspondence of the wire models on nested inputs around MaxDepth; API-level oracle on all five formats, sixteen paths, every nesting unit, with 10^6-level inputs, 6*10^6-unit runs of non-nesting tags, sentinel-length heads and 3*10^6-element inputs without nesting in 64 MB-stack subprocesses',
     'text': 'PARTIAL. Proved (unbounded in input, options, fuel): C14_cbor/msgpack/simple/binc_bound (model recursion frames <= MaxDepth on the interface{} path and in the skip walker), C14_*_error (nesting >= MaxDepth => Err, never Ok), C14_typed_bound (typed path: frames <= 2*MaxDepth + static pointer/struct nesting of the destination type). What the model decides is the recursion DEPTH; bytes of stack per frame, stack growth and the fatal exit are runtime and only observed by the harness (64 MB stack cap, 10^6..3*10^6 levels on every path incl. io.Reader, typed destinations, Raw, unknown fields, extension values). json is covered by the harness only (its wire model is being written); its skip walker is iterative.',
     'note': 'Findings made by this check and repaired in /repo: F14-4 (cbor tag bound to an InterfaceExt recursed without depth accounting), F14-5 (SelfExt payloads decoded by side decoders that restarted the depth count). The boundary is depth == MaxDepth => error (MaxDepth=1 admits no container). Trusted: Coq kernel, the hand-written wire and typed models, the harness.',
 }
